@@ -446,27 +446,20 @@ func substring(ctx *context, args []Datum) (retLit Datum) {
 		return NewLiteralDatum("")
 	}
 
-	// NB: XPATH uses 1 as first index in string, not zero, so we have to
-	//     subtract one here.  We also need to ensure both start and end Pos
-	//     are >= 0.
-	startPos := int(math.Trunc(num1+0.5)) - 1
-	endPos := int(math.Trunc(num2+0.5)) + startPos
-	if startPos < 0 {
-		// Only do this AFTER calculating endPos as the spec says we calculate
-		// length based on the rounded difference of the two params.
-		startPos = 0
+	// XPath 1.0 section 4.2: the character at (1-based) position p is
+	// returned iff p >= round(num1) and p < round(num1) + round(num2).
+	// Doing this in floating point gives NaN, the infinities, negative
+	// and fractional arguments the meaning the standard prescribes (a
+	// float to int conversion is not defined for them).
+	first := math.Floor(num1 + 0.5)
+	last := first + math.Floor(num2+0.5)
+	substr := make([]rune, 0, substrLen)
+	for i, c := range chars {
+		if p := float64(i + 1); p >= first && p < last {
+			substr = append(substr, c)
+		}
 	}
-	if startPos >= substrLen {
-		return NewLiteralDatum("")
-	}
-	if endPos < 0 {
-		endPos = 0
-	}
-	if endPos > substrLen {
-		endPos = substrLen
-	}
-	substr := string(chars[startPos:endPos])
-	return NewLiteralDatum(substr)
+	return NewLiteralDatum(string(substr))
 }
 
 func substringAfter(ctx *context, args []Datum) (retLit Datum) {
